@@ -1081,6 +1081,7 @@ awaitmoredata:
 			// t1, t2 = t2, time.Now()
 			// fmt.Printf("Time required to trimPacketsBefore: %v\n", t2.Sub(t1))
 
+			verifAcc("rloc", nil, true) // the reader loop's own working state (chanProcessed, bytesProcessed, ...)
 			// Demux data into this slice of slices of RawType
 			datacopies := make([][]RawType, as.nchan)
 			for i := 0; i < as.nchan; i++ {
@@ -1108,6 +1109,7 @@ awaitmoredata:
 				fmt.Printf("Panic! %s\n", msg)
 				panic(msg)
 			}
+			verifAcc("rloc", nil, false)
 			verifSync("send", "bufc", as.buffersChan)
 			as.buffersChan <- AbacoBuffersType{
 				datacopies:     datacopies,
@@ -1136,6 +1138,7 @@ awaitmoredata:
 // for Lancero), we'll also want to handle those changes in this loop.
 func (as *AbacoSource) getNextBlock() chan *dataBlock {
 	panicTime := time.Duration(cap(as.buffersChan)) * as.readPeriod
+	verifPoint("asm.spawn")
 	verifSync("spawn", "asm", nil)
 	go func() {
 		verifSync("start", "asm", nil)
@@ -1154,6 +1157,7 @@ func (as *AbacoSource) getNextBlock() chan *dataBlock {
 						verifSync("send", "nb", as.nextBlock)
 						as.nextBlock <- block
 					}
+					verifPoint("asm.close")
 					verifSync("close", "nb", as.nextBlock)
 					close(as.nextBlock)
 					return
@@ -1162,6 +1166,7 @@ func (as *AbacoSource) getNextBlock() chan *dataBlock {
 
 				// as.buffersChan contained valid data, so act on it.
 				block := as.distributeData(buffersMsg)
+				verifPoint("asm.send")
 				verifSync("send", "nb", as.nextBlock)
 				as.nextBlock <- block
 				if block.err != nil {
